@@ -2,8 +2,8 @@
 //! (mirror of coq/Thrift/Interp.v).
 use bytes::Bytes;
 use pilota::thrift::{
-    TInputProtocol, TListIdentifier, TMapIdentifier, TOutputProtocol, TSetIdentifier,
-    TStructIdentifier, TType, ThriftException, ProtocolExceptionKind,
+    ProtocolExceptionKind, TInputProtocol, TLengthProtocol, TListIdentifier, TMapIdentifier,
+    TOutputProtocol, TSetIdentifier, TStructIdentifier, TType, ThriftException,
 };
 
 use crate::val::{ttype_code, TVal};
@@ -148,4 +148,58 @@ pub fn err_class(e: &ThriftException) -> String {
         ThriftException::Transport(_) => "Transport".to_string(),
         ThriftException::Application(_) => "Application".to_string(),
     }
+}
+
+/// the size pass of the interpreter: same walk as write_val, over the TLengthProtocol methods
+pub fn len_val<P: TLengthProtocol>(p: &mut P, v: &TVal) -> usize {
+    match v {
+        TVal::Bool(b) => p.bool_len(*b),
+        TVal::I8(z) => p.i8_len(*z),
+        TVal::I16(z) => p.i16_len(*z),
+        TVal::I32(z) => p.i32_len(*z),
+        TVal::I64(z) => p.i64_len(*z),
+        TVal::Double(bits) => p.double_len(f64::from_bits(*bits)),
+        TVal::Binary(b) => p.bytes_len(b),
+        TVal::Uuid(u) => p.uuid_len(*u),
+        TVal::Struct(fs) => {
+            let mut n = p.struct_begin_len(&IDENT);
+            for (id, x) in fs {
+                n += p.field_begin_len(tt(ttype_code(x)), Some(*id));
+                n += len_val(p, x);
+                n += p.field_end_len();
+            }
+            n += p.field_stop_len();
+            n + p.struct_end_len()
+        }
+        TVal::List(et, l) => {
+            let mut n = p.list_begin_len(TListIdentifier { element_type: tt(*et), size: l.len() });
+            for x in l {
+                n += len_val(p, x);
+            }
+            n + p.list_end_len()
+        }
+        TVal::Set(et, l) => {
+            let mut n = p.set_begin_len(TSetIdentifier { element_type: tt(*et), size: l.len() });
+            for x in l {
+                n += len_val(p, x);
+            }
+            n + p.set_end_len()
+        }
+        TVal::Map(kt, vt, l) => {
+            let mut n = p.map_begin_len(TMapIdentifier { key_type: tt(*kt), value_type: tt(*vt), size: l.len() });
+            for (k, x) in l {
+                n += len_val(p, k);
+                n += len_val(p, x);
+            }
+            n + p.map_end_len()
+        }
+    }
+}
+
+/// all flavours of the binary length methods must agree
+pub fn len_flavours_agree<P: TLengthProtocol>(p: &mut P, b: &[u8]) -> bool {
+    let a = p.bytes_len(b);
+    let s = unsafe { std::str::from_utf8_unchecked(b) };
+    let fs = unsafe { faststr::FastStr::from_bytes_unchecked(Bytes::copy_from_slice(b)) };
+    a == p.bytes_vec_len(b) && a == p.string_len(s) && a == p.faststr_len(&fs)
 }
